@@ -1,6 +1,6 @@
 (** * C12: entry points for the correspondence check (float instance). *)
 From Coq Require Import ZArith List Floats.
-From Celer Require Import Base.Num Base.NumF Base.Vec3 C12.Solver C12.Surfaces C12.Transforms C12.Simplify.
+From Celer Require Import Base.Num Base.NumF Base.Vec3 C12.Solver C12.Surfaces C12.Transforms C12.Simplify C12.TransformSimplify C12.Involute.
 Import ListNotations.
 
 Definition ofv (v : vec3 float) : list float := [vx v; vy v; vz v].
@@ -62,3 +62,22 @@ Fixpoint simpl_chain (fuel : nat) (tol : float) (s : surface float) (passes : na
   end.
 Definition run_simpl_chain (tol : float) (s : surface float) : Z * bool * (Z * list float) :=
   let '(n, fl, s') := simpl_chain 8 tol s O false in (Z.of_nat n, fl, surf_data s').
+
+(** TransformSimplifier: (TransformType, data()) of the result and, per point,
+    transform_up of the original and of the simplified variant *)
+Definition vt_data (v : vtransform float) : Z * list float :=
+  match v with
+  | VNoTransformation => (0%Z, [])
+  | VTranslation t => (1%Z, ofv t)
+  | VTransformation tf => (2%Z, ofv (r0 (tf_rot tf)) ++ ofv (r1 (tf_rot tf)) ++ ofv (r2 (tf_rot tf)) ++ ofv (tf_tra tf))
+  end.
+Definition run_tsimp (eps : float) (v : vtransform float) (pts : list (vec3 float)) :=
+  let v' := simplify_transform eps v in
+  (vt_data v', map (fun p => ofv (vt_up v p) ++ ofv (vt_up v' p)) pts).
+
+(** Involute: constants::pi as binary64; (sense, distances in the order found, normal,
+    all root finder calls converged, loop ended within the fuel) *)
+Definition pi_f : float := 0x1.921fb54442d18p+1%float.
+Definition run_inv (s : involute float) (p d : vec3 float) (on : bool) :=
+  let '(ds, conv, fin) := inv_calc_intersections pi_f s p d on in
+  (ssense_Z (inv_calc_sense pi_f s p), ds, ofv (inv_calc_normal s p), conv, fin).
